@@ -26,18 +26,23 @@ TRUSTED = ["numpy.fft: ifft(fft(x)) = x, ifftshift(fftshift(x)) = x for every le
 NAT, CEN, TIME, SCAL = "freq-natural", "freq-centred", "time", "scalar"
 
 
-def strip_axis(v):
-    """fft-family atoms: drop axis=-1 / axes=-1 (the numpy default for 1-D, last axis otherwise)"""
+def strip_axis(v, one_dim=True):
+    """fft-family atoms: drop axis=-1 (numpy's default for fft/ifft).  fftshift/ifftshift default to ALL axes, so their
+    `axes=-1` is dropped only for one-dimensional data (`one_dim`); for two-polarisation arrays a shift without axes=-1 would
+    also swap the polarisation rows and is a different operation."""
     if not isinstance(v, Form):
         return v
 
     def fn(a):
         if a[0] == "fn" and a[1] in ("fft", "ifft", "fftshift", "ifftshift"):
-            kw = [(k, x) for k, x in a[3] if not (k in ("axis", "axes") and isinstance(x, Form) and x == Form.num(-1))]
-            args = [strip_axis(x) for x in a[2]]
-            if len(args) == 2 and a[1] in ("fftshift", "ifftshift") and isinstance(args[1], Form) and args[1] == Form.num(-1):
+            shiftfn = a[1] in ("fftshift", "ifftshift")
+            kw = [(k, x) for k, x in a[3] if not (k in ("axis", "axes") and isinstance(x, Form) and x == Form.num(-1) and (one_dim or not shiftfn))]
+            args = [strip_axis(x, one_dim) for x in a[2]]
+            if len(args) == 2 and shiftfn and isinstance(args[1], Form) and args[1] == Form.num(-1):
                 args = args[:1]
-            return Form.atom(("fn", a[1], tuple(args), tuple(kw)))
+                if not one_dim:
+                    kw = kw + [("axes", Form.num(-1))]
+            return Form.atom(("fn", a[1], tuple(args), tuple(sorted(kw, key=lambda kv: kv[0]))))
         return None
     return v.subst(fn)
 
@@ -58,10 +63,12 @@ def rule_call_table(ctx):
             tr = "fft" if dom in ("w", "f") else "ifft"
             sh = "fftshift" if dom in ("w", "f") else "ifftshift"
 
+            one_dim = cls == "electrical_signal"
+
             def want(x):
                 v = mk_fn(tr, [x])
-                return mk_fn(sh, [v]) if shift else v
-            sig = strip_axis(o.fields.get("signal"))
+                return mk_fn(sh, [v], [] if one_dim else [("axes", Form.num(-1))]) if shift else v
+            sig = strip_axis(o.fields.get("signal"), one_dim)
             ws = want(S("self.signal"))
             if isinstance(sig, Form) and sig == ws:
                 ctx.holds("C02.1", m, node, f"{case}: signal -> {sig!r}", "documented transform / reordering on the last axis")
@@ -71,7 +78,7 @@ def rule_call_table(ctx):
             if noise == "none":
                 ctx.check("C02.2", isinstance(nz, Const) and nz.v is None, m, node, f"{case}: noise -> {nz!r}", "no noise invented", "a noise component appears for a noise-free object")
             else:
-                nzs = strip_axis(nz)
+                nzs = strip_axis(nz, one_dim)
                 wn = want(S("self.noise"))
                 ctx.check("C02.2", isinstance(nzs, Form) and nzs == wn, m, node, f"{case}: noise -> {nzs!r}", "transformed exactly like the signal",
                           f"noise is not transformed like the signal (expected {wn!r})")
